@@ -49,7 +49,7 @@ def main(argv):
                   lambda v: [[dss(i) for i in x] for x in v]))
     # --- sets of declarations (reused simple names in sibling/nested/global scopes, duplicates, all kinds)
     nsets = 150 if tier == 'quick' else 4000
-    long_ids = ['Acme', 'Toaster', 'IApi', '_x', 'T1', 'a', 'b', 'c']
+    long_ids = ['Acme', 'Toaster', 'IApi', '_x', 'T1', 'a', 'b', 'c', 'IToaster', 'MyToaster', 'ab', 'bc', 'cme', 'x', 'Api', 'aT1']   # some are textual suffixes of others
     for k in range(nsets):
         cont = [[] for _ in range(KINDS)]
         uid = 0
@@ -68,7 +68,15 @@ def main(argv):
                 nm, sc = rng.choice(pool), rng.choice([[]] + pool)
             q2.append([nm, sc[:rng.randint(0, len(sc))] if rng.random() < 0.3 else sc])
         cases.append(({'op': 'find_fqn_batch', 'fc': cont, 'qs': q2}, [208, fc_sx(cont), q2], lambda v: [list(x) for x in v]))
-        q3 = [q[0] for q in q2] + [[]]
+        # suffix search: names of 1..n identifiers (the property's domain), among them names that are a *textual* tail of a declared
+        # name without being a tail of its identifier list
+        q3 = [q[0] for q in q2 if q[0]]
+        for x in [x for c in cont for x in c]:
+            d = x[1]
+            cut = rng.randint(0, len(d) - 1)
+            tail = d[cut][rng.randint(1, len(d[cut]) - 1):] if len(d[cut]) > 1 else ''
+            if tail and (tail[0].isalpha() or tail[0] == '_'):
+                q3.append([tail] + d[cut + 1:])
         cases.append(({'op': 'find_any_batch', 'fc': cont, 'qs': q3}, [209, fc_sx(cont), q3], lambda v: [list(x) for x in v]))
     # --- identifier candidates: every single code point up to 0x2FF plus samples, and structured strings
     cands = [chr(c) for c in range(0, 0x300)] + ['', '_', '__', 'a1', '1a', 'a-b', 'a b', ' a', 'a ', 'a\n', '\na', 'é', 'aé',
